@@ -9,7 +9,7 @@ from sa.engine.cfg import normally_dominates
 from sa.engine.consts import UNKNOWN
 from sa.engine.context import Ctx
 from sa.engine.guards import path_conditions
-from sa.engine.loader import AnalysisError, dotted, norm, short, walk_own
+from sa.engine.loader import anorm, AnalysisError, dotted, norm, short, walk_own
 from sa.engine.mustcall import MustPass
 from sa.engine.report import Finding, RuleReport
 from sa.rules.common import X, exception_family, extractor_entries, raised_class
@@ -331,6 +331,37 @@ def rule_over(ctx: Ctx) -> RuleReport:
                 break
             if any(_repo_subclass(ctx, cls, x) for x in hn):
                 break  # a broader handler comes first
+        # on its way up through the reader nobody catches a base class of it and raises something else ("add context" handlers)
+        from sa.engine.callgraph import reachable_functions
+
+        masked = None
+        # only what runs inside the constructors: there needs_password() cannot have been asked yet (extractall runs after that test)
+        inits = [f for f in ctx.p.module(SZ_).functions.values() if f.name == "__init__"]
+        during_open = reachable_functions(ctx.p, inits)
+        for f2 in [f for f in ctx.p.module(SZ_).functions.values() if f.key in during_open]:
+            for t in [n for n in walk_own(f2.node) if isinstance(n, ast.Try)]:
+                reaches = False
+                for c in [c for st in t.body for c in ast.walk(st) if isinstance(c, ast.Call)]:
+                    tg = resolve_call(ctx.p, f2, c).funcs
+                    if tg and any(g.key in reachable_functions(ctx.p, [x]) or x is g for x in tg):
+                        reaches = True
+                if not reaches:
+                    continue
+                for h in t.handlers:
+                    hn = [(dotted(e) or "").split(".")[-1] for e in (h.type.elts if isinstance(h.type, ast.Tuple) else [h.type])] if h.type is not None else ["BaseException"]
+                    if not any(_repo_subclass(ctx, cls, x) for x in hn):
+                        continue
+                    rr = [x for st in h.body for x in ast.walk(st) if isinstance(x, ast.Raise)]
+                    if rr and all(x.exc is None or (isinstance(x.exc, ast.Name) and x.exc.id == h.name) for x in rr):
+                        break  # re-raised as it is
+                    if cls in hn and rr and all(raised_class(x) in (cls, None) for x in rr):
+                        break
+                    masked = (f2, h, rr)
+                    break
+        if masked is not None:
+            f2, h, rr = masked
+            rep.fail(Finding("C08-OVER", SZ_, f2.qual, f"{cls} caught as {norm(h.type) if h.type is not None else 'everything'} and replaced", f"`except {norm(h.type) if h.type is not None else ''}` in {f2.qual} also catches the {cls} that the AES coder test raises and {'raises ' + str(raised_class(rr[0])) if rr else 'swallows it'} instead: an archive with encrypted file names is reported as invalid, not as encrypted", line=h.lineno))
+            continue
         if converted:
             rep.ok({"7z_aes_coder": f"{g.qual}: raise {cls}", "reaches_caller_as": ERR})
         else:
@@ -642,8 +673,14 @@ def rule_patch(ctx: Ctx) -> RuleReport:
     handlers = {id(x) for t in walk_own(op.node) if isinstance(t, ast.Try) for h in t.handlers for st in h.body for x in ast.walk(st)}
     normal = [i for i in walk_own(op.node) if isinstance(i, ast.If) and id(i) not in handlers and any(isinstance(a_, ast.Attribute) and a_.attr == "is_encrypted" for a_ in ast.walk(i.test))
               and any(isinstance(c, ast.Call) and (dotted(c.func) or "").split(".")[-1] == "patch_pypdf_fallback_aes" for st in i.body for c in ast.walk(st))]
-    if normal:
+    # ... for *every* encrypted document: the test is the reader's own is_encrypted and nothing narrower. A second condition (which crypt
+    # filter, which /V) re-implements pypdf's decision which streams need AES, and every case it misses fails in a fresh process
+    narrowed = [i for i in normal if not (isinstance(i.test, ast.Attribute) and i.test.attr == "is_encrypted")]
+    if normal and not narrowed:
         rep.ok({"_open_pdf_reader": "fallback installed whenever the opened document is encrypted"})
+    elif narrowed:
+        i = narrowed[0]
+        rep.fail(Finding("C08-PATCH", X + "pdf/pdf_extractor.py", op.qual, "fallback installed under a narrower test: " + anorm(i.test, op.node), f"the built-in AES is installed only when `{short(i.test, 70)}`: an encrypted document that needs AES but does not pass the extra test (a crypt filter with another name than /StdCF, /Identity defaults, per-stream filters) fails with DependencyError in a fresh process and works after another AES file was read", line=i.lineno))
     else:
         rep.fail(Finding("C08-PATCH", X + "pdf/pdf_extractor.py", op.qual, "fallback only on DependencyError", "the built-in AES is installed only when PdfReader(...) raises DependencyError, which AES-256 files do and AES-128 files do not: an AES-128 PDF with an empty user password fails in a fresh process (and works after any AES-256 file was read)", line=op.node.lineno))
     return rep
